@@ -181,3 +181,79 @@ def straddle_text(n, codec='utf-8', nl='\n', ch=None):
         size += len(enc_nobom(body + nl, codec))
         i += 1
     return ''.join(out)
+
+
+# ------------------------------------------------- realistic content (spec)
+# Contents of the specification's own example files: realistic metadata keys
+# and values (paths, revisions, dates, e-mail addresses, stats), commit
+# messages and vendor diffs. They extend the synthetic alphabets so that a
+# change keyed on what data LOOKS like (a "path" key, a leading "/", a date,
+# "Index:" lines) is exercised by every check that sweeps the alphabets.
+def _example_contents():
+    import glob
+    import os
+    from mc import spec as _spec
+    texts, metas, diffs = [], [], []
+    seen = set()
+    for p in sorted(glob.glob(os.path.join(_spec.REPO, 'docs', 'spec',
+                                           'example-diffs', '*.diff'))):
+        recs, err = _spec.parse(open(p, 'rb').read())
+        if err is not None:
+            continue
+        base = os.path.basename(p)[:-5]
+        for i, r in enumerate(recs):
+            for k, lst in (('text', texts), ('metadata', metas),
+                           ('diff', diffs)):
+                if k in r:
+                    key = repr(r[k])
+                    if key in seen or len(key) > 4000:
+                        continue
+                    seen.add(key)
+                    lst.append(('ex:%s:%d' % (base, i), r[k]))
+    return texts, metas, diffs
+
+
+try:
+    _t, _m, _d = _example_contents()
+    TEXTS += _t[:4]
+    METAS += [m for m in _m if isinstance(m[1], dict) and m[1]][:8]
+    DIFFS += _d[:4]
+    TEXT_BY_NAME.update(dict(_t))
+    META_BY_NAME.update(dict(_m))
+    DIFF_BY_NAME.update(dict(_d))
+except Exception:         # the docs are optional for the alphabets
+    pass
+# path-, date- and version-shaped values, keys the specification names
+METAS.append(('semantic', {
+    'path': '/abs/../x/./y\\\\z', 'revision': {'old': '1.2.3', 'new': 'HEAD~1'},
+    'date': '2021-06-01T19:26:31-07:00', 'author': 'A B <a@example.com>',
+    'op': 'move', 'type': 'symlink', 'unix file mode': '0100644',
+    'stats': {'insertions': 1}, 'id': 'a25e7b28af5e3184946068f432122c68',
+    'symlink target': '../t', 'mimetype': 'text/plain', 'length': 5,
+    'encoding': 'utf-16', 'line_endings': 'dos', 'version': '2.0'}))
+
+
+# phrases that diff tools emit (a library for diffs may special-case them)
+VENDOR_DIFF = b"\n".join([
+    b"diff --git a/img.png b/img.png", b"new file mode 100644",
+    b"index 0000000..e69de29", b"Binary files /dev/null and b/img.png differ",
+    b"Binary files a and b differ", b"GIT binary patch", b"literal 5",
+    b"delta 14", b"rename from old/name", b"rename to new/name",
+    b"similarity index 90%", b"deleted file mode 100755",
+    b"Index: trunk/file.c", b"=" * 67, b"--- trunk/file.c\t(revision 123)",
+    b"+++ trunk/file.c\t(working copy)", b"@@ -1 +1 @@", b"-old", b"+new",
+    b"\\ No newline at end of file", b"Property changes on: trunk/file.c",
+    b"Added: svn:executable", b"## -0,0 +1 ##", b"RCS file: /cvs/f,v",
+    b"retrieving revision 1.1", b"==== //depot/f#1 (text) ====",
+    b"# HG changeset patch", b"# User A <a@example.com>",
+    b"Only in a: x", b"Files a and b are identical",
+    b"--- /dev/null", b"+++ b/new.txt", b"@@ -0,0 +1,2 @@", b"+one", b"+two",
+]) + b"\n"
+DIFFS.append(('vendor-phrases', VENDOR_DIFF))
+DIFF_BY_NAME['vendor-phrases'] = VENDOR_DIFF
+TEXTS.append(('commit-message', 'Fix bug #123: handle "quoted" paths\n\n'
+              'Signed-off-by: A B <a@example.com>\nReviewed at '
+              'https://example.com/r/1/\n * bullet\n\tTabbed\n'
+              '--- not a diff\n+++ neither\n@@ nor this @@\n'
+              'Binary files a and b differ\n'))
+TEXT_BY_NAME['commit-message'] = TEXTS[-1][1]
